@@ -85,7 +85,7 @@ func (t *transport) opcodeAgrees() {
 		c.explore("C09.opcode-agrees", fn, t.opts(), func(p *core.Path) {
 			for i := range p.Events {
 				ev := &p.Events[i]
-				if _, is := t.writeEvent(ev); !is || ev.Depth != 0 || !t.writeSucceeded(p, ev) {
+				if _, is := t.writeEvent(ev); !is || !own(ev) || !t.writeSucceeded(p, ev) {
 					continue
 				}
 				x := closeCmp(p, ev.NLits)
@@ -159,7 +159,7 @@ func (t *transport) callersAgree(section *ssa.Function, paramIdx int) {
 		c.explore("C09.opcode-agrees", g, core.Opts{Unroll: 0, Pure: c.pureSet("isControl", "isData")}, func(p *core.Path) {
 			for i := range p.Events {
 				ev := &p.Events[i]
-				if !callsStatic(ev, section) || ev.Depth != 0 || paramIdx >= len(ev.Args) {
+				if !callsStatic(ev, section) || !own(ev) || paramIdx >= len(ev.Args) {
 					continue
 				}
 				ft := ev.Args[paramIdx]
